@@ -292,6 +292,10 @@ func run(c *rig.Ctx) {
 	nprog := c.N(300, 6000)
 	c.Part("lockstep", nprog, func(i int64, r *rig.Rng) {
 		p := prog.Generate(r, prog.Options{Interrupts: i%2 == 0, AllOpcodes: true, Hardware: i%4 == 1})
+		if i%6 == 5 {
+			p = prog.IdleLoops(r) // wait-for-interrupt loops instead of HALT
+			c.Count("idle_loop_programs", 1)
+		}
 		m := rig.MustNew(p.ROM, rig.Opts{})
 		f := lockstep.New(m)
 		f.Violate = func(prop, class, msg string) {
